@@ -228,8 +228,17 @@ func VerifC14_ServerFailure() {
 	good := NewChunk([]byte{0x61, 0x62})
 	id := good.ID()
 	var up Store
-	kind := vChoose("upstream", 4)
+	kind := vChoose("upstream", 5)
 	switch kind {
+	case 4: // a verifying compressed local store whose chunk file is another chunk's valid object: ChunkInvalid
+		ls, _ := NewLocalStore(vTempDir(), StoreOptions{})
+		other := NewChunk([]byte{0x63})
+		vAssert(ls.StoreChunk(good) == nil && ls.StoreChunk(other) == nil, "upstream store")
+		_, p := ls.nameFromID(id)
+		_, po := ls.nameFromID(other.ID())
+		b, _ := ioutil.ReadFile(po)
+		ioutil.WriteFile(p, b, 0644)
+		up = ls
 	case 0: // present and intact (the control)
 		st := &verifStore{}
 		st.add([]byte{0x61, 0x62})
@@ -295,6 +304,12 @@ func VerifC14_ServerFailure() {
 		vAssert(code == 404 && err == nil && !has, "missing chunk not reported as absent on HEAD")
 	case kind == 1 && op == 2:
 		vAssert(err == nil && code == 200, "upload of a new chunk failed")
+	case kind == 4 && op == 0:
+		vCover("invalid-upstream-chunk")
+		vAssert(code >= 500, "a chunk that fails verification upstream is not answered with a server error status (404 would say: missing)")
+		vAssert(err != nil && !missing && c == nil, "a chunk that fails verification upstream reported as success or as missing")
+	case kind == 4:
+		// HEAD sees the file; PUT of the right chunk replaces it
 	case kind == 2:
 		vAssert(code >= 500, "an upstream failure is not answered with a server error status")
 		vAssert(err != nil && !missing && c == nil && !has, "an upstream failure reported as success or as missing")
